@@ -52,13 +52,14 @@ End C11_field.
 Section C11_any.
   Context {K : Type} (N : Num K).
 
-  (* what the subdivision guarantees about a reported pair, for any fuel and any
-     bbox function: it is the centre pair of two sub-curves (k halvings each)
+  (* what the subdivision guarantees about a reported pair, for any fuel, any
+     bbox function and BOTH variants of the redundancy loop (rm_fixed = false: the
+     pinned remove-while-iterating code; true: the proposed repair): it is the centre pair of two sub-curves (k halvings each)
      whose boxes intersect and both have area < tol_deC.  NOTE: a distance bound
      |B1(t1) - B2(t2)| <= c does NOT follow: a box of area < tol can be
      arbitrarily long (see C11_small_area_long_box below). *)
-  Theorem C11_subdiv_witness : forall bbox tol tol_deC bez1 bez2 maxits res,
-      bezier_intersections N bbox tol tol_deC bez1 maxits bez2 = IOk res ->
+  Theorem C11_subdiv_witness : forall rm_fixed bbox tol tol_deC bez1 bez2 maxits res,
+      bezier_intersections N rm_fixed bbox tol tol_deC bez1 maxits bez2 = IOk res ->
       forall tt, In tt res ->
       exists b1 b2 k,
         sub_of N bez1 b1 (fst tt) k /\ sub_of N bez2 b2 (snd tt) k
@@ -74,21 +75,28 @@ Section C11_any.
       = imap (map swap) (intersect N atol seg_len roots01 bezbez arc_core s2 s1).
   Proof. exact (swap_dispatch N). Qed.
 
-  (* Path.intersect: every entry comes from a member segment pair and one of
-     its reported (t1,t2); T is computed from the index of the FIRST EQUAL segment *)
-  Theorem C11_path_coherent : forall seg_isect seg_point tol p1 lens1 p2 lens2 res,
-      path_intersect N seg_isect seg_point tol p1 lens1 p2 lens2 = IOk res ->
+  (* Path.intersect: every entry comes from positions i, j of the two paths and one
+     reported (t1,t2) of that segment pair; T is t2T of pos_of: the index of the
+     FIRST EQUAL segment in the pinned variant (idx_fixed = false), the position
+     itself in the repaired one (idx_fixed = true) *)
+  Theorem C11_path_coherent : forall seg_isect seg_point tol idx_fixed p1 lens1 p2 lens2 res,
+      path_intersect N seg_isect seg_point tol idx_fixed p1 lens1 p2 lens2 = IOk res ->
       forall e, In e res ->
-      exists s1 s2 t1 t2 l,
-        In s1 p1 /\ In s2 p2 /\ seg_isect s1 s2 = IOk l /\ In (t1, t2) l
-        /\ e = ((t2T N lens1 (index_of N p1 s1) t1, s1, t1), (t2T N lens2 (index_of N p2 s2) t2, s2, t2)).
+      exists i j s1 s2 t1 t2 l,
+        nth_error p1 i = Some s1 /\ nth_error p2 j = Some s2 /\ seg_isect s1 s2 = IOk l /\ In (t1, t2) l
+        /\ e = ((t2T N lens1 (pos_of N idx_fixed p1 i s1) t1, s1, t1),
+                (t2T N lens2 (pos_of N idx_fixed p2 j s2) t2, s2, t2)).
   Proof. exact (path_intersect_sound N). Qed.
-  (* ... which is the position the segment was taken from when the path has no
-     two equal segments *)
+  (* ... which is the position the segment was taken from: always in the repaired
+     variant; in the pinned one when the path has no two equal segments *)
   Theorem C11_path_index_nodup :
       (forall x y : seg K, seg_eqb N x y = true <-> x = y) ->
       forall p k s, NoDup p -> nth_error p k = Some s -> index_of N p s = k.
   Proof. exact (index_of_nodup N). Qed.
+  Theorem C11_path_position : forall idx_fixed,
+      (forall x y : seg K, seg_eqb N x y = true <-> x = y) ->
+      forall p k s, idx_fixed = true \/ NoDup p -> nth_error p k = Some s -> pos_of N idx_fixed p k s = k.
+  Proof. intros f H. exact (pos_of_position N f H). Qed.
 End C11_any.
 
 (* ---------------- reals ---------------- *)
@@ -109,8 +117,8 @@ Theorem C11_bezier_line_residual_partial : forall len bez l0 l1 roots t lt r eps
      <= lipM (bl_coeffs_y NumR len bez l0 l1) * eps)%R.
 Proof. exact bezier_line_residual_lipschitz. Qed.
 (* reported parameters of the subdivision: odd multiples of 2^-(k+1), inside (0,1) *)
-Theorem C11_subdiv_range : forall bbox tol tol_deC bez1 bez2 maxits res,
-    bezier_intersections NumR bbox tol tol_deC bez1 maxits bez2 = IOk res ->
+Theorem C11_subdiv_range : forall rm_fixed bbox tol tol_deC bez1 bez2 maxits res,
+    bezier_intersections NumR rm_fixed bbox tol tol_deC bez1 maxits bez2 = IOk res ->
     forall t1 t2, In (t1, t2) res ->
     exists k, dyadic_odd t1 k /\ dyadic_odd t2 k /\ (0 < t1 < 1)%R /\ (0 < t2 < 1)%R.
 Proof. exact subdiv_range. Qed.
@@ -120,10 +128,10 @@ Proof. exact subdiv_range. Qed.
    two boxes — while the stopping rule only bounds their AREAS (< tol_deC); so
    |B1(t1) - B2(t2)| <= 1e-5 x size is not a consequence (and fails on the code
    for small curves: key subdivision-residual-small-scale in tools/harness/c11.py) *)
-Theorem C11_subdiv_distance_partial : forall bbox tol tol_deC bez1 bez2 maxits res,
+Theorem C11_subdiv_distance_partial : forall rm_fixed bbox tol tol_deC bez1 bez2 maxits res,
     deg23 bez1 -> deg23 bez2 ->
     (forall b s, deg23 b -> (0 <= s <= 1)%R -> inbox (bbox b) (bezier_point NumR b s)) ->
-    bezier_intersections NumR bbox tol tol_deC bez1 maxits bez2 = IOk res ->
+    bezier_intersections NumR rm_fixed bbox tol tol_deC bez1 maxits bez2 = IOk res ->
     forall t1 t2, In (t1, t2) res ->
     exists b1 b2,
       let '(x1, X1, y1, Y1) := bbox b1 in
@@ -146,7 +154,7 @@ Example C11_line_line_example :
 Proof. vm_compute. reflexivity. Qed.
 (* non-vacuity: the worklist machine reports two crossings of two parabolas *)
 Example C11_subdiv_example :
-  imap (@length _) (bezier_intersections NumQ (bbox_quad NumQ) tol12 tol12
+  imap (@length _) (bezier_intersections NumQ false (bbox_quad NumQ) tol12 tol12
                       [zc 0 0; zc 18 36; zc 36 0] 60 [zc 0 32; zc 18 (-4); zc 36 32]) = IOk 2%nat.
 Proof. vm_compute. reflexivity. Qed.
 
@@ -174,10 +182,17 @@ Definition probe : list (seg Qc) := [SLine (zc 1 (-1)) (zc 1 1)].
 
 Example C11_path_index_duplicate_refuted :
   exists e1 e2,
-    path_intersect NumQ isect_lines lines_point (q 0 1) tri_twice tri_lens probe [q 1 1] = IOk [e1; e2]
+    path_intersect NumQ isect_lines lines_point (q 0 1) false tri_twice tri_lens probe [q 1 1] = IOk [e1; e2]
     /\ Qc_eq_bool (fst (fst (fst e2))) (q 1 15) = true               (* reported T1 of the 2nd traversal *)
     /\ Qc_eq_bool (t2T NumQ tri_lens 3 (snd (fst e2))) (q 13 15) = true  (* T1 of the position it came from *)
     /\ nth_error tri_twice 3 = Some (snd (fst (fst e2))).
+Proof. eexists; eexists. vm_compute. repeat split; reflexivity. Qed.
+(* the same call in the repaired variant (enumerate instead of index()): T1 = 13/15 *)
+Example C11_path_index_duplicate_fixed :
+  exists e1 e2,
+    path_intersect NumQ isect_lines lines_point (q 0 1) true tri_twice tri_lens probe [q 1 1] = IOk [e1; e2]
+    /\ Qc_eq_bool (fst (fst (fst e1))) (q 1 15) = true
+    /\ Qc_eq_bool (fst (fst (fst e2))) (q 13 15) = true.
 Proof. eexists; eexists. vm_compute. repeat split; reflexivity. Qed.
 
 Print Assumptions C11_line_line_sound.
@@ -189,9 +204,11 @@ Print Assumptions C11_subdiv_witness.
 Print Assumptions C11_swap_dispatch.
 Print Assumptions C11_path_coherent.
 Print Assumptions C11_path_index_nodup.
+Print Assumptions C11_path_position.
 Print Assumptions C11_line_line_sound_R.
 Print Assumptions C11_line_line_swap.
 Print Assumptions C11_bezier_line_residual_partial.
 Print Assumptions C11_subdiv_range.
 Print Assumptions C11_subdiv_distance_partial.
 Print Assumptions C11_path_index_duplicate_refuted.
+Print Assumptions C11_path_index_duplicate_fixed.
